@@ -22,6 +22,7 @@ def check(ctx):
     SUB = "<may::cqueue::EventSender as may::coroutine_impl::EventSource>::subscribe"
     push = Call(MQ_MPSC + "push", on=CQ + ".ev_queue", transitive=False)
     take = ao("take", CQ + ".to_wake")
+    ctx.must_follow(SUB, push, take, "subscribe/always-wakes", "every queued event is followed by taking the poller out of to_wake (a conditional wake-up loses an event when the poller parked in between)")
     ctx.order(SUB, push, take, "subscribe/push-then-wake", "the event is queued before the poller is taken out of to_wake (the woken poller must find it)")
     f = ctx.fn("R-ORDER", SUB, "subscribe/event-carries-coroutine")
     if f is not None:
@@ -36,6 +37,7 @@ def check(ctx):
         ctx.ob("R-ORDER", SUB, "subscribe/event-carries-coroutine", ok, "a Normal event carries exactly the suspended select coroutine (Some(co))" if ok else
                "EventSender::subscribe no longer queues Event{kind: Normal, co: Some(co)}", f.where())
     DR = "<may::cqueue::EventSender as std::ops::Drop>::drop"
+    ctx.must_follow(DR, push, take, "sender-drop/always-wakes", "the Done event always wakes the poller")
     ctx.order(DR, push, atomic("fetch_sub", CQ + ".cnt"), "sender-drop/done-then-count", "the Done event is queued before the count is decremented (cnt == 0 implies all Done events are queued)")
     ctx.order(DR, atomic("fetch_sub", CQ + ".cnt"), take, "sender-drop/count-then-wake", "the count is decremented before the poller is woken (a poller woken for the last Done sees cnt == 0 afterwards)")
     f = ctx.fn("R-ORDER", DR, "sender-drop/done-has-no-coroutine")
@@ -75,6 +77,10 @@ def check(ctx):
                    "poll can return an event whose bottom half has not run", f.where((bad or oks)[0]))
             # same event: continue_bottom's receiver and the returned value are the popped event
         done_edge = lambda a: a.kind == "call" and a.truth is True and (a.name or "").endswith("PartialEq>::eq")
+        not_done_edge = lambda a: a.kind == "call" and a.truth is False and (a.name or "").endswith("PartialEq>::eq")
+        ctx.guarded(PL, Call(re.escape(EV) + "::continue_bottom", transitive=False), not_done_edge, "poll/bottom-only-after-kind-test",
+                    "every popped event is tested for kind == Done before it is run as a bottom half / returned (also on the re-check pop after registering)", pred_label="edge `ev.kind == Done` is false",
+                    invalidate=pop)
         ctx.guarded(PL, Call(re.escape(CQ) + "::check_panic", transitive=False), done_edge, "poll/done-to-check-panic", "only Done events go to check_panic", pred_label="edge `ev.kind == Done`")
         es = ctx.edges(f, done_edge)
         okd = bool(es)
